@@ -6,7 +6,7 @@
    C07/Model.v that the correspondence ties execute at binary64. *)
 From Coq Require Import List Arith ZArith Bool Reals.
 From T4V Require Import Base.Scalar C07.Model C07.ProofsAlgebra C07.ProofsComb C07.ProofsMain
-  C07.ProofsGeom C07.ProofsExample C07.ProofsDomain C07.ProofsRhp C07.ProofsDevelop
+  C07.ProofsGeom C07.ProofsExample C07.ProofsDomain C07.ProofsRhp C07.ModelDevelop C07.ProofsDevelop
   C07.ProofsErrors.
 Import ListNotations.
 Open Scope R_scope.
